@@ -125,9 +125,11 @@ class SteadyDetonationReactionZone(ExactSolver):
 
         xvec_rel = np.empty_like(tvec) # initialize xvec_rel (position relative to shock front)
 
-        # Find index where t first equals or exceeds 1.0
-        if np.any(tvec >= 1.0):
-            it1 = np.where(tvec>=1.0)[0][0]
+        # Position and velocity at the end of the reaction zone (t = 1)
+        x_1 = self.rho_0 * self.Dj / self.rhoj *\
+            ((1.0 - 1.0/self.gamma) + 1.0 / (2.0 * self.gamma))
+        rho_1 = self.rhoj * self.gamma / (self.gamma - np.sqrt(1 - 1.0 / self.f))
+        u_1 = (1.0 - self.rho_0 / rho_1)*self.D
 
         for i,t in enumerate(tvec):
             if t <= 1.0:
@@ -135,7 +137,7 @@ class SteadyDetonationReactionZone(ExactSolver):
                 ((1.0 - 1.0/self.gamma)*t + t**2 /
                         (2.0 * self.gamma))
             else:
-                xvec_rel[i] = xvec_rel[it1] + (self.D - uvec[it1]) * (t-1.0)
+                xvec_rel[i] = x_1 + (self.D - u_1) * (t-1.0)
 
         xvec_abs = self.D * tvec[-1] - xvec_rel   # Particle position in absolute coordinates
 
